@@ -317,6 +317,42 @@ def gen_case(rng, kind="mixed", floats=True, explicit=True, esc_names=True, dup=
     return {"id": 0, "kind": kind, "opts": opts, "thread": thread, "callsites": callsites, "ops": ops}
 
 
+LOG_FIELDS = ["message", "log.target", "log.module_path", "log.file", "log.line"]
+
+
+def add_log_ops(rng, case, n):
+    """`log` build only: records of the `log` crate pushed through tracing-log's LogTracer.  Each gets its own pseudo
+    callsite (level / target / file / line of the record; the five fields tracing-log attaches) and is inserted at a
+    random place after the first operation; format_event shows the NORMALISED metadata (target / file / line of the record)."""
+    case["only_log"] = True
+    for _ in range(n):
+        cs = {"kind": "event", "name": H("log event"), "target": H(rand_string(rng, 8)), "level": rng.randrange(5),
+              "file": H(rand_string(rng, 8)) if rng.random() < 0.6 else None,
+              "line": rng.choice([0, 1, 42, 2 ** 32 - 1]) if rng.random() < 0.6 else None,
+              "fields": [H(f) for f in LOG_FIELDS]}
+        case["callsites"].append(cs)
+        op = {"op": "log", "cs": len(case["callsites"]) - 1, "msg": H(rand_string(rng)),
+              "module": H(rand_string(rng, 8)) if rng.random() < 0.6 else None}
+        case["ops"].insert(rng.randint(0, len(case["ops"])), op)
+    return case
+
+
+def as_event_op(case, op):
+    """the event tracing-log builds for a `log` record (lib.rs dispatch_record): message = the record's arguments, log.target,
+    and log.module_path / log.file / log.line when the record has them; contextual parent"""
+    if op["op"] != "log":
+        return op
+    cs = case["callsites"][op["cs"]]
+    vals = [[0, {"t": "args", "v": op["msg"]}], [1, {"t": "str", "v": cs["target"]}]]
+    if op["module"] is not None:
+        vals.append([2, {"t": "str", "v": op["module"]}])
+    if cs["file"] is not None:
+        vals.append([3, {"t": "str", "v": cs["file"]}])
+    if cs["line"] is not None:
+        vals.append([4, {"t": "u32", "v": str(cs["line"])}])
+    return {"op": "event", "cs": op["cs"], "parent": -2, "vals": vals, "_log": True}
+
+
 # ------------------------------------------------------------------------------------------------
 # corpus (regressions run first)
 
@@ -472,6 +508,8 @@ class Sim:
         return leaf, self.chain(cur)
 
 
+TIMINGS_RE = re.compile(rb'"time\.busy":"[^"\\]*","time\.idle":"[^"\\]*"')
+TIMINGS_MASK = b'"time.busy":"<t>","time.idle":"<t>"'
 DURATION = re.compile(r"^\d+(\.\d+)?(ns|\u00b5s|ms|s)$")
 
 
@@ -551,10 +589,18 @@ class Dup(list):
     """an object as the ordered list of its (key, value) pairs \u2014 duplicates preserved"""
 
 
-def strict_parse(text):
+FLOAT_TOKENS = set()        # the text of every float token the implementation wrote (fed to the Coq parser: float_token)
+
+
+def strict_parse(text, collect=False):
     def const(c):
         raise ValueError("non-JSON constant " + c)
-    return json.loads(text, object_pairs_hook=Dup, parse_constant=const)
+
+    def flt(tok):
+        if collect:
+            FLOAT_TOKENS.add(tok)
+        return float(tok)
+    return json.loads(text, object_pairs_hook=Dup, parse_constant=const, parse_float=flt)
 
 
 def dup_keys(tree, path=""):
@@ -711,6 +757,7 @@ def coq_case(case, tid_hex, lg, timings):
     ops = []
     span_cs = {}
     for k, op in enumerate(case["ops"]):
+        op = as_event_op(case, op)
         kind = op["op"]
         if kind == "span":
             span_cs[op["id"]] = op["cs"]
@@ -780,7 +827,7 @@ def oracle_event(rep, case, sim, op, raw_chunks, flags, prof, ev_index):
         return None
     # --- parses as one JSON object (independent parser)
     try:
-        tree = strict_parse(raw[:-1].decode("utf-8", "strict"))
+        tree = strict_parse(raw[:-1].decode("utf-8", "strict"), collect=True)
     except (ValueError, UnicodeDecodeError) as ex:
         bad("record does not parse as JSON: %s" % ex)
         return None
@@ -1009,7 +1056,7 @@ def run(ctx):
     rep.assumptions = [
         "finite f64 text (shortest round-trip) is not modelled: parse_render / stored-string refinement are for float-free trees; floats are compared numerically through the independent parser (PARTIAL)",
         "strings are valid UTF-8 (Rust's str); the theorems cover all byte lists, the model parser does not validate UTF-8",
-        "build with the `tracing-log` feature: span fields named `log.*` are that crate's metadata (those recorded through Debug/Display are deliberately skipped by JsonVisitor): excluded from the oracle's faithfulness clause there, modelled exactly (feat_log) and compared by the correspondence; events that really come from the `log` crate (normalised metadata) are not generated",
+        "build with the `tracing-log` feature: span fields named `log.*` are that crate's metadata (those recorded through Debug/Display are deliberately skipped by JsonVisitor): excluded from the oracle's faithfulness clause there, modelled exactly (feat_log) and compared by the correspondence; records of the `log` crate go through tracing-log's LogTracer (stream logcrate): the model is given the event tracing-log builds (lib.rs dispatch_record) and the record's own target / file / line as metadata (normalized_metadata)",
         "Debug / Display impls of recorded values and the timer do not fail (a failing one makes format_event return Err; fmt_subscriber then writes its `Unable to format` line, C13's subject)",
         "serde_json without preserve_order / arbitrary_precision (checked by the translator in tracing-subscriber/Cargo.toml): Value's object is a BTreeMap",
         "a span handle is dropped only when nothing else refers to the span (not entered, no live child), so that it closes at that operation (when a span closes is C05's subject); a span is not re-entered while entered; closed spans are not referred to again",
@@ -1043,6 +1090,8 @@ def run(ctx):
         for kind, n, kw in plan:
             for _ in range(n * scale):
                 cases.append(gen_case(rng, kind, **kw))
+        for _ in range(30 * scale):
+            cases.append(add_log_ops(rng, gen_case(rng, "logcrate", esc_names=False), rng.randint(1, 4)))
     for i, c in enumerate(cases):
         c["id"] = i + 1
     by_id = {c["id"]: c for c in cases}
@@ -1057,7 +1106,7 @@ def run(ctx):
         if not ok:
             rep.tie("build:" + want_build, False, vlib.last_error(log))
             return rep
-        obs, build = run_harness(ctx, rep, paths[binname], [strip_case(c) for c in cases], want_build)
+        obs, build = run_harness(ctx, rep, paths[binname], [strip_case(c) for c in cases if lg or not c.get("only_log")], want_build)
         if build != want_build:
             rep.tie("build-profile:" + want_build, False, "harness reports %r" % build)
         forms = []
@@ -1092,7 +1141,8 @@ def run(ctx):
         try:
             terms = []
             chunk = 25
-            ids = [c["id"] for n, c in enumerate(cases) if c["id"] in obs0 and (not lg or has_log_name(c) or n % 6 == 0 or ctx.replay)]
+            ids = [c["id"] for n, c in enumerate(cases)
+                   if c["id"] in obs0 and (not lg or has_log_name(c) or c.get("only_log") or n % 6 == 0 or ctx.replay)]
             for i in range(0, len(ids), chunk):
                 part = ids[i:i + chunk]
                 terms.append(("m%d" % i, vlib.coq_list([coq_case(by_id[j], obs0[j]["tid"], lg, close_timings(by_id[j], obs0[j]["out"])) for j in part])))
@@ -1137,16 +1187,14 @@ def run(ctx):
                 disagree.append({"case": strip_case(c), "impl_ops": len(r["out"]), "model_ops": len(ml)})
                 ml = None
             tid_here, tid_model = bytes.fromhex(r["tid"]), None
-            timings_model, timings_here = {}, {}
             if ml is not None and prof != model_prof:
                 # the model was evaluated with another run's thread id / close timings: substitute this run's texts
                 r0 = obs_of[model_prof][cid]
                 tid_model = bytes.fromhex(r0["tid"])
-                timings_model = close_timings(c, r0["out"])
-                timings_here = close_timings(c, r["out"])
             for k, op in enumerate(c["ops"]):
+                rep.count("op:" + op["op"])
+                op = as_event_op(c, op)
                 kind = op["op"]
-                rep.count("op:" + kind)
                 if k >= len(r["out"]):
                     break
                 chunks = [bytes.fromhex(x) for x in r["out"][k]]
@@ -1191,20 +1239,25 @@ def run(ctx):
                         disagree.append({"case": strip_case(c), "op_index": k, "impl": raw.decode("utf-8", "replace"), "model": [x.decode("utf-8", "replace") for x in ml[k]]})
                     else:
                         mraw = ml[k][0]
+                        raw_c, tree_c = raw, tree
                         if tid_model is not None:
-                            mraw = mraw.replace(tid_model, tid_here)
-                            if k in timings_model and k in timings_here:
-                                for a_, b_ in zip(timings_model[k], timings_here[k]):
-                                    if a_:
-                                        mraw = mraw.replace(json.dumps(a_, ensure_ascii=False).encode(), json.dumps(b_, ensure_ascii=False).encode(), 1)
+                            # the model was evaluated with another run's real-time inputs: this run's thread id text is
+                            # substituted, the two close durations are masked on both sides
+                            mraw = TIMINGS_RE.sub(TIMINGS_MASK, mraw.replace(tid_model, tid_here))
+                            raw_c = TIMINGS_RE.sub(TIMINGS_MASK, raw)
+                            if raw_c != raw and tree is not None:
+                                try:
+                                    tree_c = strict_parse(raw_c[:-1].decode("utf-8"))
+                                except (ValueError, UnicodeDecodeError):
+                                    tree_c = None
                         try:
                             mtree = strict_parse(mraw[:-1].decode("utf-8"))
                         except (ValueError, UnicodeDecodeError):
                             mtree = None
-                        same_tree = tree is not None and mtree is not None and mraw.endswith(b"\n") and \
-                            trees_equal(tree, mtree, "", 0 if flags["f142"] else 16)
+                        same_tree = tree_c is not None and mtree is not None and mraw.endswith(b"\n") and \
+                            trees_equal(tree_c, mtree, "", 0 if flags["f142"] else 16)
                         float_free = mtree is not None and not has_float(mtree)
-                        if not same_tree or (float_free and mraw != raw):
+                        if not same_tree or (float_free and mraw != raw_c):
                             if len(disagree) < 5:
                                 disagree.append({"case": strip_case(c), "op_index": k, "impl": raw.decode("utf-8", "replace"),
                                                  "model": mraw.decode("utf-8", "replace"), "float_free": float_free})
@@ -1225,6 +1278,28 @@ def run(ctx):
             rep.traces_validated += n_tree_eq
             rep.count("tie:tree-equal:" + prof, n_tree_eq)
             rep.count("tie:byte-identical:" + prof, n_bytes_eq)
+    # ---- the hypothesis of C14_parse_render_any_float_printer, checked on the real printer's output: every float token
+    #      serde_json wrote is read by the model's strict parser as exactly one float token
+    toks = sorted(FLOAT_TOKENS)
+    if len(toks) > 4000:
+        toks = [toks[i] for i in sorted(ctx.rng.sample(range(len(toks)), 4000))]
+    if toks:
+        try:
+            terms = []
+            for i in range(0, len(toks), 400):
+                part = toks[i:i + 400]
+                terms.append(("t%d" % i, "(map (fun t => match parse_value 1 (t ++ [44]) with Some (JFloat 0, [44]) => true | _ => false end) %s)"
+                              % vlib.coq_list([cb(t) for t in part])))
+            res = coq_eval(ctx, "From Coq Require Import String Ascii NArith ZArith Bool List.\nFrom TV Require Import Fmt.JsonModel.\nImport ListNotations.\nLocal Open Scope N_scope.",
+                           terms, shards=min(vlib.NCPU, max(1, len(terms))), tag="float_tokens")
+            bad_toks = []
+            for i in range(0, len(toks), 400):
+                bad_toks += [t for t, ok in zip(toks[i:i + 400], res["t%d" % i]) if ok is not True]
+            rep.tie("float-tokens", not bad_toks, "%d distinct float tokens written by serde_json, each read by the model parser as one float token" % len(toks),
+                    bad_toks[:3] or None)
+            rep.count("float-tokens-checked", len(toks))
+        except Exception as ex:
+            rep.tie("float-tokens", False, str(ex)[:300])
     rep.extra["distinct_lines"] = len(distinct_lines)
     samples = []
     for c in cases[:2] + cases[5:7]:
